@@ -199,6 +199,9 @@ func (w *c13World) run() {
 			r.FailSig("snapshot-divergence", "final", fmt.Sprintf("replica %s and the reference replica hold different state machine snapshots after all %d entries: %s", f.n.name, len(w.log), snapDiff(want.Data, got.Data)), nil)
 			return
 		}
+		if !w.checkState(f, "final") {
+			return
+		}
 	}
 	r.Nontrivial = w.accepted >= 5 && w.batchesMulti >= 2 && (w.recoveries > 0 || noFaults)
 }
@@ -207,6 +210,14 @@ func (w *c13World) snapAll(n *node) [][]byte {
 	out := make([][]byte, len(w.tracked))
 	for i, hs := range w.tracked {
 		out[i] = n.export(hs)
+	}
+	return out
+}
+
+func (w *c13World) dumpAll(n *node) []string {
+	out := make([]string, len(w.tracked))
+	for i, hs := range w.tracked {
+		out[i] = n.semanticDump(hs)
 	}
 	return out
 }
@@ -394,7 +405,18 @@ func (w *c13World) checkState(f *replica, when string) bool {
 	want := w.snaps[f.pos]
 	for i := range w.tracked {
 		if !bytes.Equal(got[i], want[i]) {
-			w.r.FailSig("snapshot-divergence", when, fmt.Sprintf("replica %s %s: hash slot %d differs from the reference replica at log position %d: %s", f.n.name, when, w.tracked[i], f.pos, snapDiff(want[i], got[i])), nil)
+			w.r.FailSig("snapshot-divergence", when+"/"+diffWhere(want[i], got[i]), fmt.Sprintf("replica %s %s: hash slot %d differs from the reference replica at log position %d: %s", f.n.name, when, w.tracked[i], f.pos, snapDiff(want[i], got[i])), nil)
+			return false
+		}
+	}
+	if f.pos != len(w.log) || !(when == "final" || when == "after-snapshot-restore") {
+		return true
+	}
+	// typed reads (independent of the exporter), against the reference replica's current state
+	gotD, wantD := w.dumpAll(f.n), w.dumpAll(w.ref)
+	for i := range w.tracked {
+		if gotD[i] != wantD[i] {
+			w.r.FailSig("read-divergence", when, fmt.Sprintf("replica %s %s: typed reads of hash slot %d differ from the reference replica at log position %d although the exported snapshot bytes agree:\n reference: %s\n replica:   %s", f.n.name, when, w.tracked[i], f.pos, wantD[i], gotD[i]), nil)
 			return false
 		}
 	}
